@@ -4,6 +4,11 @@ T-gen : Gen/SavePlan.v (the write_data_array calls of common.save_results by ast
         dtype, output_tree_design.OTD by import) and Gen/Schemas.v (input schemas, step classes);
         Props/C19.v re-proves at every run that the regenerated call table is the documented one
         up to order (plan_wf) and that the regenerated schemas allow the replay theorems.
+        Gen/SaveFns.v (translator/gen_save_fns.py): the BODIES of common.write_data_array, save_results, save_config,
+        output_tree_design.get_out_dir / get_out_file_path, check_configuration.read_config_file and pandora.main
+        translated statement by statement (ast, fail closed) over Model/SavePrims.v; Props/C19.v re-proves at every
+        run that each generated function equals the hand-written model for ALL inputs and restates the theorems on
+        the generated functions.
 T-corr: the REAL command-line entry pandora.main, in process, on small synthetic rasters written
         with rasterio into a mkdtemp directory outside /repo and /verif (removed afterwards):
         (1) Model/Save.v run on the in-memory products that main handed to save_results against
@@ -32,7 +37,7 @@ from harness import core
 from harness import jsonwire as jw
 from harness import pandora_util as pu
 
-GEN = ["gen_save", "gen_schemas"]
+GEN = ["gen_save", "gen_schemas", "gen_save_fns"]
 EXTRACT_FILES = ["X19"]
 DRIVERS = ["x19"]
 RULE = ("each case = one configuration file run through pandora.main, an independent pandora.run, and a second "
@@ -47,6 +52,10 @@ RULE = ("each case = one configuration file run through pandora.main, an indepen
         "json.dumps compact and indent=2 against the model's print, json.loads against the model's parse, and two malformed "
         "neighbours (a character deleted / inserted / doubled, or truncation) on which json.loads and the model's parser must agree")
 ASSUMES = [
+    "the restated theorems on the generated functions take the numpy / xarray invariants as hypotheses: arrays are "
+    "rectangular (rect2), a cube has one value per indicator at every pixel, the left dataset returned by run is not "
+    "empty; and the environment of main as hypotheses (env_ok): check_conf is Model/SavedCfg.v full_check, the run "
+    "leaves run_rewrites of cfg -- both compared with the real code on every case (correspondences 2 and 3)",
     "GeoTIFF encoding / decoding by rasterio + GDAL is outside the model: 'write then read returns the array, dtype, "
     "descriptions, crs, transform' is sampled on every file of every case, not proved",
     "the cast of rasterio's write is modelled as numpy astype; the theorems take the IEEE contract (a float32-"
@@ -68,6 +77,9 @@ ASSUMES = [
     "step name: 'completed configuration' is read as the configuration as run (observation O3 in the report)",
 ]
 TRUSTED = ["Gen/SavePlan.v produced by translator/gen_save.py (ast of common.save_results, OTD by import)",
+           "Gen/SaveFns.v produced by translator/gen_save_fns.py (ast of the seven function bodies) and the semantics "
+           "Model/SavePrims.v gives to the rasterio / numpy / xarray / json / dict constructs it meets (rasterio.open, "
+           "write, descriptions, a[:, :, k], json.dump(indent=), dict(), os.path.join, aliasing of dictionaries)",
            "Gen/Schemas.v produced by translator/gen_schemas.py",
            "Spec/Save.v read as the meaning of the first sentence of the property"]
 
@@ -791,6 +803,19 @@ def run(ctx):
         "default written by a prologue is a scalar that update_conf leaves alone",
         "defs_wf gen_defs = true (vm_compute): the regenerated default input section is {input: {left: scalars, right: scalars}} "
         "and no entry of the six input schemas check_input_section can build accepts a dictionary",
+    ]
+    ctx.gen_obligations += [
+        "C19_gen_write_data_array: Gen.SaveFns.write_data_array (2-D branch, 3-D branch with its band loop, dtype, "
+        "descriptions, crs / transform, width / height / count) = Model/Save.v write_data_array on every rectangular "
+        "array (induction on the loop; re-proved on the regenerated body)",
+        "C19_gen_save_results: Gen.SaveFns.save_results = Model/Save.v run_calls on the regenerated call table, every "
+        "file under <output>, for all product datasets",
+        "C19_gen_save_config: Gen.SaveFns.save_config = one text file <output>/<OTD path> holding print cfg "
+        "(json.dump(cfg, fp, indent=2), no other keyword, no conversion)",
+        "C19_gen_main: Gen.SaveFns.main = Model/SaveMain.v main_flow for every environment (check_conf result saved, "
+        "right interval derived on a copy, margins added after the run, save_config of that dictionary)",
+        "gen_out_paths (Proofs/SaveGenP.v): the generated get_out_file_path agrees with Model/Save.v out_path on the "
+        "seven keys used (vm_compute)",
     ]
     ctx.notes.append("observation O3: cost_volume_confidence_run overwrites the (undocumented) `indicator` key of its step with "
                      "the suffix of the step name, so cfg/config.json holds the configuration as run, not check_conf's output "
